@@ -2,7 +2,8 @@
    Model: Model/Labels.v (labels_cycles) over binary64 features and thresholds. *)
 From Coq Require Import List Arith Bool ZArith Floats.PrimFloat.
 Import ListNotations.
-From ByC Require Import Base.Result Base.FloatFacts Model.Runs Model.Labels Model.Cycles Model.Features Proofs.Labels Proofs.LabelsOrder Proofs.FeaturesSpec.
+From ByC Require Import Base.Result Base.FloatFacts Model.Runs Model.Labels Model.Cycles Model.Features Proofs.Labels Proofs.LabelsOrder Proofs.FeaturesSpec
+  Model.TableRuns Proofs.TableRuns.
 
 (* a cycle is labelled exactly when it lies in a stretch of >= n consecutive qualifying
    cycles that avoids the first and the last cycle of the table *)
@@ -69,3 +70,23 @@ Theorem C06_pipeline_label_iff_on_columns : forall c raw k b t n out i,
    interior_window (map (row_qualifies t) out) (Z.to_nat n) i).
 Proof. exact compute_features_cycles_label_iff. Qed.
 Print Assumptions C06_pipeline_label_iff_on_columns.
+
+(* "on a fixed table": calling the detector again on the table RETURNED by compute_features (it
+   carries an is_burst column by then) with thresholds and min_n_cycles not lower than before only
+   removes labels of that table *)
+Theorem C06_rethresholding_the_returned_table_only_removes_labels : forall c raw k b t n t' n' out lab',
+  thr_finite t -> thr_finite t' -> thr_le t t' -> (n <= n')%Z ->
+  compute_features c raw k b (Cycles t n) = Ok out ->
+  labels_cycles t' n' (map feat_of_row out) = Ok lab' ->
+  length lab' = length out /\
+  forall i, nth i lab' false = true -> r_is_burst (nth i out frow0) = true.
+Proof. exact relabel_returned_table. Qed.
+Print Assumptions C06_rethresholding_the_returned_table_only_removes_labels.
+
+(* the two-call correspondence entry point (Model/TableRuns.v) inherits the monotonicity *)
+Theorem C06_second_call_with_raised_settings_only_removes_labels : forall t n t' n' rows lab lab',
+  thr_finite (mk_thr t) -> thr_finite (mk_thr t') -> thr_le (mk_thr t) (mk_thr t') -> (n <= n')%Z ->
+  run_labels_cycles2 (t, n, (t', n'), rows) = (Ok lab, Some (Ok lab')) ->
+  forall i, nth i lab' false = true -> nth i lab false = true.
+Proof. exact two_calls_cycles_mono. Qed.
+Print Assumptions C06_second_call_with_raised_settings_only_removes_labels.
